@@ -40,6 +40,7 @@ class Sim(object):
         self.axes = {}      # name -> (labels, kind), insertion ordered
         self.vars = {}      # key -> dims
         self.ctr = 0
+        self.off = 0        # 20200000 for one history in five: labels whose spacing is tiny relative to their size
 
     def fresh(self, prefix):
         self.ctr += 1
@@ -59,7 +60,7 @@ class Sim(object):
 
 
 def fresh_labels(rng, kind, n, sim):
-    base = sim.ctr * 10
+    base = sim.ctr * 10 + (sim.off if kind in 'if' else 0)
     sim.ctr += 1
     if kind == 'i':
         return gen.reorder(rng, [base + 3 * i for i in range(n)], rng.choice(['inc', 'dec', 'shuf']))
@@ -77,7 +78,7 @@ def make_array(rng, sim, dims, badpos=None, badmode=None):
             if badpos == i:
                 if badmode == 'perturb' or len(l) < 2 and badmode == 'permute':
                     j = rng.randrange(len(l))
-                    l[j] = l[j] + 1000 if k != 's' else l[j] + 'X'
+                    l[j] = l[j] + rng.choice([1000, 1]) if k != 's' else l[j] + 'X'
                 elif badmode == 'permute':
                     l = l[1:] + l[:1]
                 elif badmode == 'truncate':
@@ -92,6 +93,8 @@ def make_array(rng, sim, dims, badpos=None, badmode=None):
 
 def gen_history(rng, nsteps, forced_bad=None):
     sim = Sim()
+    if rng.random() < 0.2:
+        sim.off = gen.BIG
     direct = set()
     steps = []
     start = rng.choice(['empty', 'empty', 'ctor'])
